@@ -184,6 +184,7 @@ func c08RunAcl(c *c08AclCase) (clause string, outcome string) {
 	type path struct {
 		name string
 		udp  bool
+		tcp  bool // a TCP request to the same destination (shares the engine's lookup cache)
 	}
 	run := func(order []path) (map[string]c08Decision, string) {
 		var seen []c08Seen
@@ -204,6 +205,12 @@ func c08RunAcl(c *c08AclCase) (clause string, outcome string) {
 			switch c.Kind {
 			case "engine":
 				a := &AddrEx{Host: c.Host, Port: c.Port, ResolveInfo: c08CloneRI(c08Resolves[c.Resolve])}
+				if p.tcp {
+					if conn, terr := ob.TCP(a); terr == nil && conn != nil {
+						_ = conn.Close()
+					}
+					continue
+				}
 				if p.udp {
 					_, err = ob.UDP(a)
 				} else {
@@ -211,6 +218,12 @@ func c08RunAcl(c *c08AclCase) (clause string, outcome string) {
 				}
 			default:
 				ad := &PluggableOutboundAdapter{ob}
+				if p.tcp {
+					if conn, terr := ad.TCP(c.Query); terr == nil && conn != nil {
+						_ = conn.Close()
+					}
+					continue
+				}
 				if p.udp {
 					var conn interface{ Close() error }
 					conn, err = ad.UDP(c.Query)
@@ -238,11 +251,17 @@ func c08RunAcl(c *c08AclCase) (clause string, outcome string) {
 		}
 		return res, ""
 	}
-	a, cl := run([]path{{"udp-first", true}, {"check-second", false}})
+	a, cl := run([]path{{"udp-first", true, false}, {"check-second", false, false}})
 	if cl != "" {
 		return cl, ""
 	}
-	b, cl := run([]path{{"check-first", false}, {"udp-second", true}})
+	b, cl := run([]path{{"check-first", false, false}, {"udp-second", true, false}})
+	if cl != "" {
+		return cl, ""
+	}
+	// a TCP request to the same destination first (any client of the server may have made one):
+	// the UDP decisions must not depend on it
+	t, cl := run([]path{{name: "tcp-first", tcp: true}, {"udp-after-tcp", true, false}, {"check-after-tcp", false, false}})
 	if cl != "" {
 		return cl, ""
 	}
@@ -250,7 +269,8 @@ func c08RunAcl(c *c08AclCase) (clause string, outcome string) {
 	for _, x := range []struct {
 		n string
 		d c08Decision
-	}{{"CheckUDP after UDP", a["check-second"]}, {"CheckUDP on a fresh engine", b["check-first"]}, {"UDP after CheckUDP", b["udp-second"]}} {
+	}{{"CheckUDP after UDP", a["check-second"]}, {"CheckUDP on a fresh engine", b["check-first"]}, {"UDP after CheckUDP", b["udp-second"]},
+		{"UDP after a TCP request to the same destination", t["udp-after-tcp"]}, {"CheckUDP after a TCP request to the same destination", t["check-after-tcp"]}} {
 		if x.d.norm() != ref {
 			return fmt.Sprintf("UDP and CheckUDP disagree: UDP on a fresh engine -> [%s], %s -> [%s]", ref, x.n, x.d.norm()), ref
 		}
@@ -315,7 +335,7 @@ func c08AclContract(sh *evidence.Shard) {
 	p2 := sh.Part("adapter-acl-engine", "enum")
 	p2.Alphabet = map[string]any{"rule_lists": c08RuleLists, "queries": c08Queries,
 		"outbounds": "ob1 (default), ob2, ob3, noudp (refuses UDP on both paths), direct (stub), built-in reject",
-		"orders":    "UDP then CheckUDP on one engine; CheckUDP then UDP on another (lookup cache warm/cold)"}
+		"orders":    "UDP then CheckUDP on one engine; CheckUDP then UDP on another; TCP to the same destination, then UDP, then CheckUDP on a third (lookup cache warm/cold, warmed by the other protocol)"}
 	enum.Product([]int{len(c08RuleLists), len(c08Queries)}, func(ix []int) bool {
 		one(p2, &c08AclCase{Kind: "adapter-engine", Rules: ix[0], Query: c08Queries[ix[1]]})
 		return true
